@@ -377,6 +377,21 @@ func c04Race(ev *evidence.Run, tier string) {
 	}
 	reportRace("checkers-as-goroutines", res.Stderr)
 	ev.Nontrivial("race|harness")
+	// (a2) constructors first used concurrently (fresh process each round: only the first use of a lazily built
+	// shared object can race)
+	for round := 0; round < 4; round++ {
+		cres := harness.RunCmd(harness.WorkDir(), append(os.Environ(), "GORACE=halt_on_error=0", "VERIF_REPO="+harness.RepoDir), 10*time.Minute, bin, "-ctor")
+		ev.Eval(1)
+		ev.Nontrivial("race|constructors")
+		if strings.Contains(cres.Stdout, "CTOR-BROKEN") || (!strings.Contains(cres.Stdout, "CTOR-DONE") && !strings.Contains(cres.Stderr, "DATA RACE") && !strings.Contains(cres.Stderr, "concurrent map")) {
+			fmt.Fprintln(os.Stderr, "c04race -ctor failed (broken check):", cres.Exit, cres.Stdout, string(tail([]byte(cres.Stderr), 1500)))
+			os.Exit(2)
+		}
+		reportRace("concurrent-constructors", cres.Stderr)
+		if i := strings.Index(cres.Stdout, "CTOR-VIOLATION"); i >= 0 {
+			ev.Violate(evidence.Violation{Key: "constructors|concurrent-first-use|output-differs", What: "checker sets constructed at the same time (one per package pass) report differently from a set constructed alone", Observed: cres.Stdout[i:min(len(cres.Stdout), i+1500)], Replay: map[string]interface{}{"kind": "race", "leg": "constructors"}})
+		}
+	}
 	// (c) concurrent analyzer passes, free-running under the race detector (valid and invalid configurations)
 	{
 		overlay, err := buildSchedOverlay()
